@@ -83,7 +83,9 @@ RefCompleteL(m, strict) ==
                              + (IF strict THEN Len(m.trailer) ELSE 0)
     [] f = "close"   -> n >= HeadEnd(m)
     [] OTHER         -> FALSE
-RefComplete(m)       == RefCompleteL(m, FALSE)
+\* (The lenient reading was given up: "a message cut short by the peer is reported as an error" - a chunked message
+\* ends with the line that ends its trailer section, RFC 7230 4.1.)
+RefComplete(m)       == RefCompleteL(m, TRUE)
 RefCompleteStrict(m) == RefCompleteL(m, TRUE)
 
 \* the payload body (transfer coding "chunked" removed, content coding still applied)
